@@ -10,7 +10,7 @@ import harness  # noqa: E402
 from engine import State  # noqa: E402
 from harness import MirCheck, Src  # noqa: E402
 from summaries import RESULT  # noqa: E402
-from values import VEnum, VOpaque, VSeq, VStr, VStruct, bv  # noqa: E402
+from values import VArr, VEnum, VOpaque, VSeq, VStr, VStruct, bv  # noqa: E402
 
 MAX_AGE = 300
 MAX_FUTURE = 30
@@ -83,8 +83,162 @@ def build(ck, src, obs=None):
                       "reach_rejected_future": z3.And(pc, ok, z3.Not(some), z3.UGT(ts, now_s))}}
 
 
+# ------------------------------------------------------------------------------------------ DhtCoreEngine::handle_request: protocol caps
+MAX_VALUE = 512
+MAX_FIND = 20
+KREP = 8
+
+
+def variant_fields(eng, enum_name, vname):
+    for ad in eng.adts[enum_name]:
+        if ad.kind == "enum":
+            for (vn, vf, d) in ad.variants:
+                if vn == vname:
+                    return [f for f, _ in vf]
+    raise harness.SymError(f"{enum_name}::{vname} not found")
+
+
+def build_dispatch(ck, kind, src, obs=None):
+    """one call of DhtCoreEngine::handle_request (async) for a Store / FindNode / FindValue message from an arbitrary data store:
+    oversized values are refused and leave the store untouched, accepted values are stored byte for byte under their key only,
+    and the routing table is never asked for more than the protocol cap of nodes"""
+    from harness import run_async
+    from values import VBlob, VMap
+
+    eng = ck.engine() if obs is None else ck.meta_engine()
+    keyb = src.bytes("key", 32)
+    kbv = harness_key(keyb)
+    okey = harness_key(src.bytes("other", 32))
+    val_id, val_len = src.bv("value.id", 64), src.bv("value.len", 64)
+    count = src.bv("count", 64)
+    probes = {"cand": kbv, "other": okey}
+    data0 = src.map("D.data", 256, VBlob(bv(0, 64), bv(0, 64)), probes)
+    hyps = list(src.hyps) + [kbv != okey, z3.ULE(val_len, bv(1 << 20, 64))]
+    d0 = harness_sel(data0, kbv)
+    if obs is None:
+        st = State()
+        meta_t = VStruct([bv(0, 64), mk_time0("SystemTime"), bv(0, 64), mk_time0("SystemTime")], "DataMetadata")
+        meta0 = harness.mk_map(eng, "D.meta", 256, meta_t)
+        store = VStruct([data0, meta0], "DataStore")
+        # the per-key access counter is incremented once per read: a u64 counter cannot have been driven to its maximum (stated bound)
+        hyps.append(z3.ULT(z3.Select(meta0.val.f[2], kbv), bv(1 << 63, 64)))
+        rstore = eng.alloc(st, store)
+        recorded = []
+
+        def kernel(e, s_, args, dty, callee, m):
+            recorded.append((s_.pc, args[2]))
+            return VSeq([], bv(0, 64))
+
+        import re as _re
+        eng.summaries.insert(0, (_re.compile(r"^(core_engine::)?KademliaRoutingTable::find_closest_nodes$"), kernel,
+                                 "CONTRACT KademliaRoutingTable::find_closest_nodes: its `count` argument is recorded (the kernel itself is C02's subject)"))
+        adt = eng.struct_adt("DhtCoreEngine")
+        vals = []
+        for f, _ in adt.fields:
+            if f == "data_store":
+                vals.append(rstore)
+            elif f == "routing_table":
+                vals.append(eng.alloc(st, VOpaque("routing table")))
+            elif f == "node_id":
+                vals.append(VStruct([VStruct([VArr([bv(0, 8)] * 32)], "DhtKey")], "NodeId"))
+            elif f in ("transport", "trust_peer_selector"):
+                vals.append(VEnum(eng.enum_info("Option"), bv(0, 8), {0: ()}))
+            else:
+                vals.append(VOpaque("DhtCoreEngine." + f))
+        re_ = eng.alloc(st, VStruct(vals, "DhtCoreEngine"))
+        minfo = eng.enum_info("DhtMessage")
+        dk = VStruct([keyb], "DhtKey")
+        if kind == "store":
+            names = variant_fields(eng, "DhtMessage", "Store")
+            fv = {"key": dk, "value": VBlob(val_id, val_len), "ttl": mk_time0("Duration")}
+            msg = VEnum(minfo, bv(minfo.index("Store"), 8), {minfo.index("Store"): tuple(fv[n] for n in names)})
+        elif kind == "find_node":
+            names = variant_fields(eng, "DhtMessage", "FindNode")
+            fv = {"target": dk, "count": count}
+            msg = VEnum(minfo, bv(minfo.index("FindNode"), 8), {minfo.index("FindNode"): tuple(fv[n] for n in names)})
+        else:
+            names = variant_fields(eng, "DhtMessage", "FindValue")
+            msg = VEnum(minfo, bv(minfo.index("FindValue"), 8), {minfo.index("FindValue"): (dk,)})
+        wrapper = mk_named(eng, "DhtRequestWrapper", {"id": VStr(bv(77, 64)), "message": msg})
+        st2, resp = run_async(eng, ck.fn_in("DhtCoreEngine", "handle_request"), [re_, wrapper], st)
+        pc = st2.pc
+        rinfo = eng.enum_info("DhtResponse")
+        r = resp.f[eng.struct_adt("DhtResponseWrapper").field_index("response")]
+        is_err = r.idx == bv(rinfo.index("Error"), 8)
+        is_ack = r.idx == bv(rinfo.index("StoreAck"), 8)
+        S1 = eng.load(st2, rstore)
+        data1 = S1.f[0]
+        asked = [(p, c) for (p, c) in recorded]
+        o = {"is_err": is_err, "is_ack": is_ack}
+    else:
+        pc = z3.BoolVal(True)
+        data1 = harness.obs_map({k: (None if v is None else [v["id"], v["len"]]) for k, v in obs["data"].items()}, "D.data", 256, VBlob(bv(0, 64), bv(0, 64)), probes)
+        asked = []
+        o = {"is_err": z3.BoolVal(obs["resp"] == "Error"), "is_ack": z3.BoolVal(obs["resp"] == "StoreAck")}
+        nodes_len = bv(int(obs.get("nodes", 0)), 64)
+    G = {}
+    same_other = same_blob_at(data0, data1, okey)
+    if kind == "store":
+        d1 = harness_sel(data1, kbv)
+        too_big = z3.UGT(val_len, bv(MAX_VALUE, 64))
+        G["oversized_value_is_refused_and_never_enters_the_store"] = z3.Implies(too_big, z3.And(o["is_err"], same_blob_at(data0, data1, kbv)))
+        G["accepted_value_is_held_byte_for_byte_under_its_key"] = z3.Implies(z3.Not(too_big), z3.And(o["is_ack"], z3.Select(data1.present, kbv), d1.id == val_id, d1.len == val_len))
+        G["no_other_key_is_touched"] = same_other
+    else:
+        if obs is None:
+            cap = MAX_FIND if kind == "find_node" else KREP
+            want = z3.If(z3.ULE(count, bv(MAX_FIND, 64)), count, bv(MAX_FIND, 64)) if kind == "find_node" else bv(KREP, 64)
+            G["routing_table_is_asked_for_at_most_the_protocol_cap"] = z3.And(*[z3.Implies(p, z3.And(z3.ULE(c, bv(cap, 64)), c == want)) for (p, c) in asked]) if asked else z3.BoolVal(False)
+        else:
+            G["routing_table_is_asked_for_at_most_the_protocol_cap"] = z3.ULE(nodes_len, bv(MAX_FIND if kind == "find_node" else KREP, 64))
+        G["store_is_not_modified_by_a_lookup"] = z3.And(same_other, same_blob_at(data0, data1, kbv))
+    return {"eng": eng, "hyps": hyps, "goals": {g: z3.Implies(pc, f) for g, f in G.items()}, "reach": {"reach_end": pc}}
+
+
+def harness_key(varr):
+    from values import key_bv
+    return key_bv(varr)
+
+
+def harness_sel(m, k):
+    from values import vmap
+    return vmap(m.val, lambda a: z3.Select(a, k))
+
+
+def same_blob_at(m0, m1, k):
+    a, b = harness_sel(m0, k), harness_sel(m1, k)
+    return z3.And(z3.Select(m1.present, k) == z3.Select(m0.present, k), z3.Implies(z3.Select(m0.present, k), z3.And(a.id == b.id, a.len == b.len)))
+
+
+def mk_time0(ty):
+    from summaries import mk_time
+    return mk_time(bv(0, 64), bv(0, 32), ty)
+
+
+def mk_named(eng, tyname, vals):
+    adt = eng.struct_adt(tyname)
+    names = [f for f, _ in adt.fields]
+    if set(names) != set(vals):
+        raise harness.SymError(f"struct {tyname} fields changed: {names} vs {sorted(vals)}")
+    return VStruct([vals[f] for f in names], adt.name)
+
+
 def run(tier):
     ck = MirCheck("C05", tier)
+    for kind in ("store", "find_node", "find_value"):
+        def regd(kind=kind):
+            src = Src()
+            R = build_dispatch(ck, kind, src)
+            params = {"kind": kind}
+            rp = harness.make_replayer(ck, "core_engine", "dispatch", lambda s, obs: build_dispatch(ck, kind, s, obs), params)
+            ck.register_src("dispatch", params, src)
+            for g, f in R["goals"].items():
+                ck.prove(f"dispatch[{kind}]/{g}", R["eng"], R["hyps"], f, on_sat=rp, meta={"goal": g})
+            ck.reach(f"dispatch[{kind}]/reach_end", R["eng"], R["hyps"], R["reach"]["reach_end"])
+            ck.side(f"dispatch[{kind}]/side", R["eng"], R["hyps"], on_sat=rp)
+            ck.out.samples.append({"obligation": f"dispatch[{kind}]", "goals": list(R["goals"])})
+
+        ck.guarded(f"dispatch[{kind}]", regd)
 
     def reg():
         src = Src()
@@ -112,4 +266,9 @@ def run(tier):
 
 
 def replay(path):
-    return harness.replay_file(path, lambda ck, driver, params: (lambda s, obs: build(ck, s, obs)))
+    def rebuild(ck, driver, params):
+        if driver == "dispatch":
+            return lambda s, obs: build_dispatch(ck, params["kind"], s, obs)
+        return lambda s, obs: build(ck, s, obs)
+
+    return harness.replay_file(path, rebuild)
